@@ -3,6 +3,7 @@
    (np > 1); the correspondence check drives the REAL ParallelMap through enumerated completion orders. *)
 From Coq Require Import List Arith.
 From HT Require Import Model_ParMap Proof_ParMap.
+From HG Require Import Gen_ParMap.
 Import ListNotations.
 
 Section C13.
@@ -41,6 +42,28 @@ Theorem C13_pinned_code_deadlocked :
             /\ pc s = Waiting /\ stuck unit unit (fun _ => Err tt) 1 false s.
 Proof. exact pinned_code_deadlocks. Qed.
 
+(* the structural facts the model rests on, REGENERATED from parallel_map.py on every run: the worker catches a task's exception and always puts exactly one
+   (index, result) per task taken (so `catch = true` is the model of the source), tasks are enqueued with their index in order, __call__ takes exactly n_tasks
+   results and stores each at its own index in a pre-allocated list, and re-raises the first error in index order only after all results are in *)
+Theorem C13_source_is_the_modelled_system :
+  PM_worker_catches = true /\ PM_worker_always_puts = true /\ PM_tasks_put_in_order = true /\ PM_receives_n_results = true /\
+  PM_results_stored_by_index = true /\ PM_first_error_in_index_order = true.
+Proof. repeat split; reflexivity. Qed.
+
+(* transport of exceptions: the wrapper's round-trip test uses the serializer of the result queue (regenerated fact), hence for ANY exception -- also one the
+   queue cannot carry, such as an instance of a class defined inside a function -- what the worker puts is delivered (the original, or its description) *)
+Theorem C13_exception_reports_are_delivered :
+  PM_check_is_transport_serializer = true /\
+  forall (Ex : Type) (pickles : Ex -> bool) (describe : Ex -> Ex), (forall e, pickles (describe e) = true) ->
+    forall e, delivered Ex pickles pickles describe e = true.
+Proof. split; [reflexivity | intros Ex pickles describe Hd e; apply wrap_delivered; [exact Hd | auto]]. Qed.
+
+(* ... while a test that accepts more than the queue carries loses exactly those reports (the caller would wait forever: the `catch = false` system above) *)
+Theorem C13_laxer_test_loses_reports :
+  forall (Ex : Type) (pickles check : Ex -> bool) (describe : Ex -> Ex), (forall e, pickles (describe e) = true) ->
+    forall e, delivered Ex pickles check describe e = false <-> (check e = true /\ pickles e = false).
+Proof. intros. apply wrap_lost_iff. assumption. Qed.
+
 (* non-vacuity: 3 tasks, 2 workers, task 1 fails, completion order 2,1,0: the caller gets task 1's exception *)
 Example C13_example :
   let outcome := fun i => if Nat.eqb i 1 then Err 7 else Ok (10 * i) in
@@ -56,3 +79,6 @@ Print Assumptions C13_parallel_is_serial.
 Print Assumptions C13_never_blocks.
 Print Assumptions C13_schedules_finite.
 Print Assumptions C13_pinned_code_deadlocked.
+Print Assumptions C13_source_is_the_modelled_system.
+Print Assumptions C13_exception_reports_are_delivered.
+Print Assumptions C13_laxer_test_loses_reports.
